@@ -12,17 +12,14 @@ import (
 	"go/ast"
 	"go/token"
 	"go/types"
+	"strings"
 )
 
-// mapTerm rewrites t top-down: where f replaces a term the replacement is taken as is, otherwise the children are rewritten.
-func mapTerm(t Term, f func(Term) (Term, bool)) Term {
+// mapKids rewrites the immediate sub-terms of t with m.
+func mapKids(t Term, m func(Term) Term) Term {
 	if t == nil {
 		return nil
 	}
-	if r, ok := f(t); ok {
-		return r
-	}
-	m := func(x Term) Term { return mapTerm(x, f) }
 	ms := func(xs []Term) []Term {
 		if xs == nil {
 			return nil
@@ -38,8 +35,12 @@ func mapTerm(t Term, f func(Term) (Term, bool)) Term {
 		x.X = m(x.X)
 		return x
 	case TCall:
-		x.Recv = m(x.Recv)
-		x.Dyn = m(x.Dyn)
+		if x.Recv != nil {
+			x.Recv = m(x.Recv)
+		}
+		if x.Dyn != nil {
+			x.Dyn = m(x.Dyn)
+		}
 		x.Args = ms(x.Args)
 		return x
 	case TBuiltin:
@@ -58,7 +59,16 @@ func mapTerm(t Term, f func(Term) (Term, bool)) Term {
 		x.X, x.I = m(x.X), m(x.I)
 		return x
 	case TSlice:
-		x.X, x.Lo, x.Hi, x.Max = m(x.X), m(x.Lo), m(x.Hi), m(x.Max)
+		x.X = m(x.X)
+		if x.Lo != nil {
+			x.Lo = m(x.Lo)
+		}
+		if x.Hi != nil {
+			x.Hi = m(x.Hi)
+		}
+		if x.Max != nil {
+			x.Max = m(x.Max)
+		}
 		return x
 	case TAssert:
 		x.X = m(x.X)
@@ -83,6 +93,115 @@ func mapTerm(t Term, f func(Term) (Term, bool)) Term {
 		return x
 	}
 	return t
+}
+
+// mapTerm rewrites t top-down: where f replaces a term the replacement is taken as is, otherwise the children are rewritten.
+func mapTerm(t Term, f func(Term) (Term, bool)) Term {
+	if t == nil {
+		return nil
+	}
+	if r, ok := f(t); ok {
+		return r
+	}
+	return mapKids(t, func(x Term) Term { return mapTerm(x, f) })
+}
+
+// mapBU rewrites t bottom-up: children first, then f on the rebuilt term.
+func mapBU(t Term, f func(Term) Term) Term {
+	if t == nil {
+		return nil
+	}
+	return f(mapKids(t, func(x Term) Term { return mapBU(x, f) }))
+}
+
+// normByteStrings rewrites the []byte spellings of string operations into their string forms, so that rules phrased on strings see
+// one vocabulary: strconv.AppendX(fresh empty []byte, args…) = []byte(strconv.FormatX(args…)); bytes.IndexByte/IndexRune/Index/Contains…
+// on []byte(s) = the strings function on s; append([]byte(s), "lit"...) = []byte(s + "lit"); string([]byte(s)) = s.
+func (c *Ctx) normByteStrings(t Term) Term {
+	asBytes := func(t Term) (Term, bool) {
+		if cv, ok := t.(TConv); ok {
+			if sl, ok := cv.To.Underlying().(*types.Slice); ok {
+				if b, ok := sl.Elem().Underlying().(*types.Basic); ok && b.Kind() == types.Uint8 {
+					return cv.X, true
+				}
+			}
+		}
+		return nil, false
+	}
+	emptyBytes := func(t Term) bool {
+		switch x := t.(type) {
+		case TNil:
+			return true
+		case TBuiltin:
+			if x.Name == "make" && len(x.Args) >= 1 {
+				k, ok := constInt(x.Args[0])
+				return ok && k == 0
+			}
+		case TLit:
+			return len(x.Elts) == 0
+		}
+		return false
+	}
+	lookup := func(pkg, name string) *types.Func {
+		for _, imp := range c.Types.Imports() {
+			if imp.Path() == pkg {
+				if f, ok := imp.Scope().Lookup(name).(*types.Func); ok {
+					return f
+				}
+			}
+		}
+		return nil
+	}
+	var bytesType types.Type = types.NewSlice(types.Typ[types.Uint8])
+	return mapBU(t, func(t Term) Term {
+		switch x := t.(type) {
+		case TCall:
+			if x.Fun == nil || x.Fun.Pkg() == nil || x.Recv != nil {
+				return t
+			}
+			switch x.Fun.Pkg().Path() {
+			case "strconv":
+				if strings.HasPrefix(x.Fun.Name(), "Append") && len(x.Args) >= 2 && emptyBytes(x.Args[0]) {
+					if f := lookup("strconv", "Format"+strings.TrimPrefix(x.Fun.Name(), "Append")); f != nil {
+						y := x
+						y.Fun, y.Name, y.Args = f, f.Name(), x.Args[1:]
+						return TConv{To: bytesType, X: y}
+					}
+				}
+			case "bytes":
+				if len(x.Args) >= 1 {
+					if s0, ok := asBytes(x.Args[0]); ok {
+						if f := lookup("strings", x.Fun.Name()); f != nil {
+							y := x
+							y.Fun, y.Name = f, f.Name()
+							y.Args = append([]Term{s0}, x.Args[1:]...)
+							for i := 1; i < len(y.Args); i++ {
+								if si, ok := asBytes(y.Args[i]); ok {
+									y.Args[i] = si
+								}
+							}
+							return y
+						}
+					}
+				}
+			}
+		case TBuiltin:
+			if x.Name == "append" && len(x.Args) == 2 {
+				if s0, ok := asBytes(x.Args[0]); ok {
+					if _, isStr := isConstStringTerm(x.Args[1]); isStr {
+						return TConv{To: bytesType, X: TBin{Op: token.ADD, X: s0, Y: x.Args[1]}}
+					}
+				}
+			}
+		case TConv:
+			if b, ok := x.To.Underlying().(*types.Basic); ok && b.Info()&types.IsString != 0 {
+				if s0, ok := asBytes(x.X); ok {
+					return s0
+				}
+			}
+		}
+		return t
+	})
 }
 
 func mapEnv(e map[types.Object]Term, f func(Term) (Term, bool)) map[types.Object]Term {
